@@ -416,6 +416,7 @@ impl Shim<'_> {
             agg.guards_failed += p.guards_failed;
             agg.early_exits += p.early_exits;
             agg.try_none += p.try_none;
+            agg.try_some += p.try_some;
             agg.field_writes += p.field_writes;
             agg.list_mutations += p.list_mutations;
             agg.host_calls += p.host_calls;
@@ -439,6 +440,7 @@ impl Shim<'_> {
         cl("path:guard-failed", agg.guards_failed);
         cl("path:early-exit", agg.early_exits);
         cl("path:try-none", agg.try_none);
+        cl("path:try-some", agg.try_some);
         cl("path:field-write", agg.field_writes);
         cl("path:list-mutation", agg.list_mutations);
         cl("path:host-call", agg.host_calls);
